@@ -213,6 +213,9 @@ def c03_objects(ctx, res):
              ("ld r1 z\nbrz ok\nlea r0 bad\nputs\nhalt\nok lea r0 good\nputs\nhalt\nbad .stringz \"B\"\ngood .stringz \"G\"\nz .fill #0\n", b"G"),
              (".orig x4000\nlea r0 m\nputs\nld r2 pad\nbrnp no\nlea r0 y\nputs\nno halt\nm .stringz \"a\"\ny .stringz \"y\"\npad .blkw #3\n", b"ay"),
              ("and r0 r0 #0\nadd r0 r0 #7\nputn\nhalt\nbuf .blkw #40\n", b"7")]
+    # origins whose high byte is zero (and their neighbours): the first word of the file is the origin, high byte first
+    for o in (0x0000, 0x0001, 0x0030, 0x00FF, 0x0100, 0x0101, 0x3000 >> 8, 0xFD00):
+        progs.append((".orig x%04x\nld r0 ch\nout\nhalt\nch .fill x%02x\n" % (o, 0x41 + o % 26), bytes([0x41 + o % 26])))
     for k, (src, want) in enumerate(progs):
         for ext in ("lc3", "obj"):
             name, obj = "o%d.asm" % k, "o%d.%s" % (k, ext)
